@@ -81,8 +81,8 @@ def normalise(toks):
             continue
         elif t.kind == "p" and t.val in ("(", ")"):
             continue      # set-operation operand wrapping differs by dialect; parenthesisation is C02's subject
-        elif t.kind == "str" and re.fullmatch(r"\d+( \w+)?", t.val):
-            out.append(("interval", t.val.split(" ")[0]))
+        elif t.kind == "str" and re.fullmatch(r"[\d:.\-]+(?: [\d:.\-]+)?( [A-Z_]+)?", t.val):
+            out.append(("interval", re.sub(r" [A-Z_]+$", "", t.val)))
         elif t.kind in ("kw", "id") and t.quote is None and t.val in ("DAY", "HOUR_MINUTE", "HOUR", "MINUTE"):
             continue
         else:
@@ -176,10 +176,34 @@ def examine(case):
         F("interval-form", "interval template does not follow the %s dialect" % outer, outer=outer)
     # --- GROUP BY alias support: Oracle / MSSQL never group by an alias, at any depth
     if outer in ("oracle", "mssql"):
-        for m in re.finditer(r"GROUP BY (.*?)(?: HAVING| ORDER BY| LIMIT| OFFSET|\)|$)", text):
-            if re.search(r"(?<![.\w])\"?(al\d+|my col)\"?(?![\w.])", m.group(1)):
-                F("groupby-alias", "GROUP BY refers to a select alias under %s" % outer, outer=outer)
-                break
+        i = 0
+        while i < len(toks) - 1:
+            if toks[i].kind == "kw" and toks[i].val == "GROUP" and toks[i + 1].kind == "kw" and toks[i + 1].val == "BY":
+                j, depth, item = i + 2, 0, []
+                items = []
+                while j < len(toks):
+                    t = toks[j]
+                    if t.kind == "p" and t.val in "([":
+                        depth += 1
+                    elif t.kind == "p" and t.val in ")]":
+                        if depth == 0:
+                            break
+                        depth -= 1
+                    if depth == 0 and t.kind == "kw" and t.val in ("HAVING", "ORDER", "LIMIT", "OFFSET", "FETCH", "FOR", "UNION", "WITH"):
+                        break
+                    if depth == 0 and t.kind == "p" and t.val == ",":
+                        items.append(item)
+                        item = []
+                    else:
+                        item.append(t)
+                    j += 1
+                items.append(item)
+                for it in items:
+                    if len(it) == 1 and it[0].kind == "id" and re.fullmatch(r"al\d+|my col", it[0].val):
+                        F("groupby-alias", "GROUP BY refers to the select alias %s under %s" % (it[0].val, outer), outer=outer)
+                i = j
+            else:
+                i += 1
     # --- apart from the documented differences the token sequence is the same for every dialect
     if case.get("all_classes"):
         ref = None
